@@ -1,0 +1,188 @@
+//go:build verif
+// +build verif
+
+// Contracts for deductive verification (govc, /verif). Comment-only file.
+
+package sandbox
+
+// ======================= C10: sandbox =======================
+// Live entry of a scan: neither a delete mark nor (for versioned reads) a record
+// that the key was absent.
+//@ macro vdIsDel(v) = str(v.PureData.Value) == "\x00"
+//@ macro vdIsAbsent(v) = v.RefTxid == nil && v.RefOffset == 0 && v.PureData.Value == nil
+//@ macro vdLive(v, stripEmpty) = !vdIsDel(v) && !(stripEmpty && vdIsAbsent(v))
+
+//@ func IsDelFlag
+//@   property C10
+//@   ensures delete_mark: result == (str(value) == "\x00")
+
+//@ func compareBytes
+//@   property C10
+//@   ensures nil_is_max: (k1 == nil && k2 == nil ==> result == 0) && (k1 == nil && k2 != nil ==> result == 1) && (k1 != nil && k2 == nil ==> result == 0 - 1)
+//@   ensures content_order: k1 != nil && k2 != nil ==> (result == 0) == (str(k1) == str(k2)) && (result < 0) == (str(k1) < str(k2)) && (result > 0) == (str(k2) < str(k1)) && 0 - 1 <= result && result <= 1
+
+// The strip iterator advances the inner iterator to the next LIVE entry: every
+// entry it skips is a delete mark (or, for versioned reads, an absent-key record),
+// and it stops exactly when none is left.
+//@ func stripDelIterator.Next
+//@   property C10
+//@   let it = s.XMIterator
+//@   requires cursor_in_range: sel(itPos, it) >= 0 - 1
+//@   ensures stops_on_live_entry: result ==> old(sel(itPos, it)) < sel(itPos, it) && sel(itPos, it) < itLen(it) && vdLive(itValAt(it, sel(itPos, it)), s.stripEmptyVersion)
+//@   ensures skipped_entries_not_live: forall i int :: old(sel(itPos, it)) < i && i < sel(itPos, it) && i < itLen(it) ==> !vdLive(itValAt(it, i), s.stripEmptyVersion)
+//@   ensures exhausted: !result ==> sel(itPos, it) + 1 >= itLen(it)
+//@   ensures other_iterators_untouched: forall o ledger.XMIterator :: o != it ==> sel(itPos, o) == sel(old(itPos), o)
+//@   loop 1 invariant scanning: old(sel(itPos, it)) <= sel(itPos, it) && (forall i int :: old(sel(itPos, it)) < i && i <= sel(itPos, it) && i < itLen(it) ==> !vdLive(itValAt(it, i), s.stripEmptyVersion)) && (forall o ledger.XMIterator :: o != it ==> sel(itPos, o) == sel(old(itPos), o)) && s.XMIterator == it && s.stripEmptyVersion == old(s.stripEmptyVersion)
+
+// Replay of recorded token inputs: the reader hands out the shortest prefix of
+// the remaining inputs whose amounts sum to at least the amount, all owned by
+// `from`, and moves its cursor past them.
+//@ spec func inSum(ins []*protos.TxInput, lo int, k int) int = k <= 0 ? 0 : inSum(ins, lo, k - 1) + natOf(ins[lo + k - 1] == nil ? nil : ins[lo + k - 1].Amount)
+//@ macro ownerOf(in) = (in == nil ? "" : str(in.FromAddr))
+//@ func UTXOReader.SelectUtxo
+//@   property C10
+//@   uses natNonneg
+//@   let ins = r.inputCache
+//@   let lo = r.inputIdx
+//@   requires cursor: 0 <= r.inputIdx && r.inputIdx <= len(r.inputCache) && amount != nil
+//@   ensures covers_amount: result3 == nil ==> sel(bigval, result2) == inSum(ins, lo, len(result0)) && inSum(ins, lo, len(result0)) >= sel(old(bigval), amount)
+//@   ensures shortest_prefix: result3 == nil && len(result0) >= 1 && sel(old(bigval), amount) > 0 ==> inSum(ins, lo, len(result0) - 1) < sel(old(bigval), amount)
+//@   ensures all_owned_by_from: result3 == nil ==> (forall k int :: 0 <= k && k < len(result0) ==> ownerOf(ins[lo + k]) == from)
+//@   ensures returns_cursor_prefix: result3 == nil ==> (forall k int :: 0 <= k && k < len(result0) ==> result0[k] == ins[lo + k])
+//@   ensures cursor_advances: result3 == nil ==> r.inputIdx == lo + len(result0) && lo + len(result0) <= len(ins)
+//@   ensures failure_keeps_cursor: result3 != nil ==> r.inputIdx == lo
+//@   loop 1 invariant prefix: 0 <= $i && $i <= len(inputCache) && n == $i && sum != nil && sum != amount && sum <= allocTop() && amount <= allocTop() && sel(bigval, sum) == inSum(ins, lo, $i) && sel(bigval, amount) == sel(old(bigval), amount) && ($i >= 1 ==> inSum(ins, lo, $i - 1) < sel(bigval, amount)) && ($i >= 1 ==> sel(bigval, sum) < sel(bigval, amount)) && r.inputIdx == lo && r.inputCache == ins && (forall k int :: 0 <= k && k < $i ==> ownerOf(ins[lo + k]) == from)
+
+//@ func MemXModel.Select
+//@   noverify
+//@   noeffects
+//@   ensures opened_on_this_store: (result1 == nil ==> result0 != nil) && (result0 != nil ==> selOrigin(result0) == m && sel(itPos, result0) == 0 - 1)
+//@   ensures range_accepted: (result1 == nil) == selOk(bucket, startKey, endKey)
+//@   ensures yields_stored_entries_of_range: result1 == nil ==> (forall k string :: ys(result0, k) == (inRange(k, startKey, endKey) ? mv(m, bucket, k) : 0))
+
+// ---- merge of two iterators ----
+// peekAt(p, pos): the look-ahead buffer of p holds entry pos of its iterator (or nothing past the end).
+//@ macro peekAt(p, pos) = p != nil && p.next == (pos < itLen(p.iter)) && (p.next ==> p.key == itKeyAt(p.iter, pos) && p.value == itValAt(p.iter, pos) && p.key != nil) && (!p.next ==> p.key == nil && p.value == nil) && (pos <= itLen(p.iter) ==> sel(itPos, p.iter) == pos || (!p.next && sel(itPos, p.iter) + 1 == pos))
+// One merge step: the smaller head is yielded; on equal keys the FRONT entry wins
+// and both sides advance; an exhausted side yields the other.
+//@ func multiIterator.Next
+//@   property C10
+//@   let f = m.front
+//@   let b = m.back
+//@   let fp = sel(itPos, m.front.iter) + (m.front.next ? 0 : 1)
+//@   let bp = sel(itPos, m.back.iter) + (m.back.next ? 0 : 1)
+//@   requires heads_buffered: peekAt(m.front, fp) && peekAt(m.back, bp) && m.front != m.back && m.front.iter != m.back.iter && fp >= 0 && bp >= 0
+//@   ensures front_exhausted_yields_back: !old(f.next) ==> result == old(b.next) && m.key == old(b.key) && m.value == old(b.value) && (old(b.next) ==> peekAt(b, bp + 1))
+//@   ensures back_exhausted_yields_front: old(f.next) && !old(b.next) ==> result && m.key == old(f.key) && m.value == old(f.value) && peekAt(f, fp + 1)
+//@   ensures tie_front_wins_both_advance: old(f.next) && old(b.next) && str(old(f.key)) == str(old(b.key)) ==> result && m.key == old(f.key) && m.value == old(f.value) && peekAt(f, fp + 1) && peekAt(b, bp + 1)
+//@   ensures smaller_front_first: old(f.next) && old(b.next) && str(old(f.key)) < str(old(b.key)) ==> result && m.key == old(f.key) && m.value == old(f.value) && peekAt(f, fp + 1) && peekAt(b, bp)
+//@   ensures smaller_back_first: old(f.next) && old(b.next) && str(old(b.key)) < str(old(f.key)) ==> result && m.key == old(b.key) && m.value == old(b.value) && peekAt(b, bp + 1) && peekAt(f, fp)
+
+// ---- composition of a sandbox scan ----
+// The scan is judged by its key-indexed view ys (trusted spec): each constructor is
+// verified for the shape it builds, and the view of that shape - what iterating it
+// to the end yields per key - is assumed at the call site; it is what the verified
+// Next contracts above give by induction over the underlying sequence (the
+// induction itself is not mechanised, see the assumption list in the evidence).
+//@ macro liveRef(r, stripEmpty) = r != 0 && vdLive(asVD(r), stripEmpty)
+//@ func newStripDelIterator
+//@   property C10
+//@   ensures shape: typeis(result, stripDelIterator) && result.(stripDelIterator).XMIterator == xmiter && !result.(stripDelIterator).stripEmptyVersion
+//@   assumes view: forall k string :: ys(result, k) == (liveRef(ys(xmiter, k), false) ? ys(xmiter, k) : 0)
+//@   assumes records: forall c int, b string, k string :: recs(result, c, b, k) == recs(xmiter, c, b, k)
+//@ func newStripDelAndEmptyIterator
+//@   property C10
+//@   ensures shape: typeis(result, stripDelIterator) && result.(stripDelIterator).XMIterator == xmiter && result.(stripDelIterator).stripEmptyVersion
+//@   assumes view: forall k string :: ys(result, k) == (liveRef(ys(xmiter, k), true) ? ys(xmiter, k) : 0)
+//@   assumes records: forall c int, b string, k string :: recs(result, c, b, k) == recs(xmiter, c, b, k)
+//@ func newMultiIterator
+//@   property C10
+//@   requires both: front != nil && back != nil
+//@   ensures shape: typeis(result, multiIterator) && result.(multiIterator).front != nil && result.(multiIterator).back != nil && result.(multiIterator).front.iter == front && result.(multiIterator).back.iter == back
+//@   assumes view: forall k string :: ys(result, k) == (ys(front, k) != 0 ? ys(front, k) : ys(back, k))
+//@   assumes records: forall c int, b string, k string :: recs(result, c, b, k) == (recs(front, c, b, k) || recs(back, c, b, k))
+//@ func newRsetIterator
+//@   property C10
+//@   ensures shape: typeis(result, rsetIterator) && result.(rsetIterator).XMIterator == iter && result.(rsetIterator).mc == mc && result.(rsetIterator).bucket == bucket && result.(rsetIterator).err == nil
+//@   assumes view: forall k string :: ys(result, k) == ys(iter, k)
+//@   assumes records: forall k string :: ys(iter, k) != 0 ==> recs(result, mc, bucket, k)
+//@ func newContractIterator
+//@   property C10
+//@   ensures shape: typeis(result, ContractIterator) && result.(ContractIterator).XMIterator == xmiter
+//@   assumes view: forall k string :: ys(result, k) == ys(xmiter, k)
+//@   assumes records: forall c int, b string, k string :: recs(result, c, b, k) == recs(xmiter, c, b, k)
+// Recording one backend entry: rsetIterator.Next reads the key it has just moved to
+// through the sandbox, which (state_read_recorded) puts it into the read set.
+//@ func rsetIterator.Next
+//@   property C10
+//@   requires wired: r.mc != nil && r.XMIterator != nil && sel(itPos, r.XMIterator) >= 0 - 1 && r.mc.outputsCache != nil && r.mc.inputsCache != nil && r.mc.outputsCache != r.mc.inputsCache && rsConsistent(r.mc)
+//@   at XMCache.Get assert reads_key_just_reached: recv == r.mc && $0 == r.bucket && 0 <= sel(itPos, r.XMIterator) && sel(itPos, r.XMIterator) < itLen(r.XMIterator) && $1 == itKeyAt(r.XMIterator, sel(itPos, r.XMIterator))
+//@   ensures every_step_is_read: result ==> sel(itPos, r.XMIterator) == sel(old(itPos), r.XMIterator) + 1
+//@   ensures key_reached_is_in_rw_set: result ==> mv(r.mc.outputsCache, r.bucket, str(itKeyAt(r.XMIterator, sel(itPos, r.XMIterator)))) != 0 || mv(r.mc.inputsCache, r.bucket, str(itKeyAt(r.XMIterator, sel(itPos, r.XMIterator)))) != 0 || stateAt(r.mc.model, r.bucket, str(itKeyAt(r.XMIterator, sel(itPos, r.XMIterator)))) == 0
+
+// A range scan yields, per key of the range: this execution's latest write (nothing
+// when that is a delete), else the recorded read, else the backing state - the last
+// two only when live, i.e. neither deleted nor recorded-as-absent; and every backing
+// entry the scan passes is recorded in the read set.
+//@ macro scanOut(mc, bucket, k) = sel(sel(sel(memView, mc.outputsCache), bucket), k)
+//@ macro scanState(mc, bucket, k) = stateAt(mc.model, bucket, k)
+//@ func XMCache.newXModelCacheIterator
+//@   property C10 C09
+//@   requires stores: mc.outputsCache != nil && mc.inputsCache != nil && mc.outputsCache != mc.inputsCache
+//@   requires read_set_caches_state: (forall b string, k string :: sel(sel(sel(memView, mc.inputsCache), b), k) != 0 ==> sel(sel(sel(memView, mc.inputsCache), b), k) == stateAt(mc.model, b, k))
+//@   ensures scan_yields_live_overlay: result1 == nil && selOk(bucket, startKey, endKey) ==> (forall k string :: ys(result0, k) == (!inRange(k, startKey, endKey) ? 0 : scanOut(mc, bucket, k) != 0 ? (vdIsDel(asVD(scanOut(mc, bucket, k))) ? 0 : scanOut(mc, bucket, k)) : liveRef(scanState(mc, bucket, k), true) ? scanState(mc, bucket, k) : 0))
+//@   ensures never_yields_deleted: result1 == nil && selOk(bucket, startKey, endKey) ==> (forall k string :: ys(result0, k) != 0 ==> !vdIsDel(asVD(ys(result0, k))))
+//@   ensures backend_reads_are_recorded: result1 == nil && selOk(bucket, startKey, endKey) ==> (forall k string :: inRange(k, startKey, endKey) && scanState(mc, bucket, k) != 0 ==> recs(result0, mc, bucket, k))
+
+// ---- point reads and writes ----
+// memView[store][bucket][key]: the versioned data a MemXModel (red-black tree,
+// trusted) holds for a key of a bucket (0: nothing). Indexing by the pair assumes
+// makeRawKey (bucket + "/" + key) is injective, i.e. bucket names contain no "/".
+//@ ghost var memView (Array Int (Array Str (Array Str Int)))
+//@ macro mv(store, b, k) = sel(sel(sel(memView, store), b), k)
+//@ macro mvOld(store, b, k) = sel(sel(sel(old(memView), store), b), k)
+//@ func MemXModel.Get
+//@   noverify
+//@   noeffects
+//@   ensures found: result1 == nil ==> result0 != nil && result0 == mv(m, bucket, str(key))
+//@   ensures not_found: result1 != nil ==> result1 == ErrNotFound && mv(m, bucket, str(key)) == 0 && result0 == nil
+//@ func MemXModel.Put
+//@   noverify
+//@   noeffects
+//@   sets memView = upd(old(memView), m, upd(sel(old(memView), m), bucket, upd(sel(sel(old(memView), m), bucket), str(key), value)))
+//@   ensures ok: result == nil
+
+// The read set is a cache of the backing state: whatever it holds for a key is what
+// the backing reader answers for that key (stateAt, trusted spec).
+//@ macro rsConsistent(xc) = (forall b string, k string :: mv(xc.inputsCache, b, k) != 0 ==> mv(xc.inputsCache, b, k) == stateAt(xc.model, b, k))
+// asVDp(r): the integer reference r viewed as *ledger.VersionedData
+//@ spec func asVDp(r int) *ledger.VersionedData = r
+// Read-your-writes: a read observes this execution's latest write or delete of the
+// key, else the backing state (through the recorded read when there is one) - and
+// then records what it saw.
+//@ func XMCache.Get
+//@   property C10
+//@   let o = asVDp(mv(xc.outputsCache, bucket, str(key)))
+//@   let i = asVDp(mv(xc.inputsCache, bucket, str(key)))
+//@   let d = asVDp(stateAt(xc.model, bucket, str(key)))
+//@   requires stores: xc.outputsCache != nil && xc.inputsCache != nil && xc.outputsCache != xc.inputsCache
+//@   requires read_set_caches_state: rsConsistent(xc)
+//@   ensures own_write_read_back: o != 0 && str(o.PureData.Value) != "\x00" ==> result1 == nil && result0 == o.PureData.Value
+//@   ensures own_delete_observed: o != 0 && str(o.PureData.Value) == "\x00" ==> result1 == ErrHasDel
+//@   ensures recorded_read_reused: o == 0 && i != 0 && i.PureData != nil && result1 == nil ==> result0 == i.PureData.Value && memView == old(memView)
+//@   ensures else_the_backing_state: o == 0 && result1 == nil ==> d != 0 && (d.PureData != nil ==> result0 == d.PureData.Value)
+//@   ensures state_read_recorded: o == 0 && i == 0 && d != 0 ==> mv(xc.inputsCache, bucket, str(key)) == d
+//@   ensures writes_untouched: sel(memView, xc.outputsCache) == sel(old(memView), xc.outputsCache)
+//@   ensures recorded_reads_kept: forall b string, k string :: mvOld(xc.inputsCache, b, k) != 0 ==> mv(xc.inputsCache, b, k) == mvOld(xc.inputsCache, b, k)
+//@   ensures read_set_still_caches_state: rsConsistent(xc)
+//@   ensures absent_or_deleted_not_returned: result1 == nil && o == 0 && d.PureData != nil ==> !vdIsDel(d) && !(d.RefTxid == nil && d.RefOffset == 0)
+
+// A write puts the final value into the write set and (transient bucket aside)
+// forces the key into the read set first.
+//@ func XMCache.Put
+//@   property C10
+//@   requires stores: xc.outputsCache != nil && xc.inputsCache != nil && xc.outputsCache != xc.inputsCache
+//@   requires read_set_caches_state: rsConsistent(xc)
+//@   ensures value_in_write_set: result == nil ==> mv(xc.outputsCache, bucket, str(key)) != 0 && asVDp(mv(xc.outputsCache, bucket, str(key))).PureData.Value == value && asVDp(mv(xc.outputsCache, bucket, str(key))).PureData.Bucket == bucket
+//@   ensures written_key_was_read: result == nil && bucket != TransientBucket && mvOld(xc.outputsCache, bucket, str(key)) == 0 && (mvOld(xc.inputsCache, bucket, str(key)) != 0 || stateAt(xc.model, bucket, str(key)) != 0) ==> mv(xc.inputsCache, bucket, str(key)) != 0
+//@   ensures read_set_still_caches_state: rsConsistent(xc)
